@@ -19,7 +19,7 @@ claim("C19", "other",
       "trusted: sa/cfg.py, copy-depth table of DESIGN Appendix B",
       "CFG dominance/reachability + copy-depth vs store-depth + ownership establishment", "DESIGN.md §4 C19")
 claim("C07", "other",
-      "Project.connect is analysed path by path: no early exit from or partial iteration of the operand loops, no loop-carried local between pair iterations, the four parallel tables mutated pairwise and on both ends on every path, cross-referencing slot values proved in a list-length symbolic domain, ownership look-ups dominating all mutations; operator siblings compared; census of every link-table writer in rv. The per-operation obligations give the reachable-state invariant by induction; equality of the connection set with an arbitrary request sequence depends on list contents and is declined.",
+      "Project.connect is analysed path by path: no early exit from or partial iteration of the operand loops, no loop-carried local between pair iterations, the four parallel tables mutated pairwise and on both ends on every path, cross-referencing slot values proved in a list-length symbolic domain, ownership look-ups dominating all mutations, an optional link position (index-or-None helper) never tested by truth value; operator siblings compared; census of every link-table writer in rv. The per-operation obligations give the reachable-state invariant by induction; equality of the connection set with an arbitrary request sequence depends on list contents and is declined.",
       "trusted: sa/cfg.py path enumeration, list.append/index semantics",
       "path enumeration over a CFG + list-length symbolic domain + who-may-write census", "DESIGN.md §4 C07")
 for _p in ["C07", "C19"]:
